@@ -466,8 +466,10 @@ pub fn scenarios(thorough: bool) -> Vec<Scenario> {
             for q in &progs2 {
                 // symmetric duplicates are skipped
                 let steps: usize = p.iter().chain(q.iter()).map(|o| steps_of(*o).len()).sum();
-                // quick tier: at most 4 atomic steps in total (thorough: everything)
-                if format!("{p:?}") <= format!("{q:?}") && (thorough || steps <= 4) {
+                // quick tier: at most 4 atomic steps in total; thorough: additionally every
+                // pair of programs with at most 3 operations in total over the larger alphabet
+                // (all 2+2 combinations of 11 operations took about an hour and found nothing more)
+                if format!("{p:?}") <= format!("{q:?}") && (steps <= 4 || (thorough && p.len() + q.len() <= 3)) {
                     out.push(Scenario { seed: seed.clone(), progs: vec![p.clone(), q.clone()] });
                 }
             }
